@@ -108,9 +108,14 @@ ChoiceO(min, max, ps) == [k |-> "choice", min |-> min, max |-> max, ps |-> ps]
 TopBranches == { << El("leftBranch", B("string"), 1, "1"), El("rightBranch", B("long"), 1, "1") >>,
                  << El("leftBranch", T("t", "OtherType"), 1, "1"), Ref("t", "GlobalThing", 1, "1"), El("rightBranch", T("o", "FarType"), 0, "unb") >>,
                  << El("leftBranch", B("int"), 1, "n"), SeqP(1, "1", << El("innerMember", B("string"), 1, "1"), El("tailMember", B("boolean"), 0, "1") >>) >> }
+AllO(min, ps) == [k |-> "all", min |-> min, max |-> "1", ps |-> ps]
+AllMembers == { << El("leftBranch", B("string"), 1, "1"), El("rightBranch", B("long"), 0, "1") >>,
+                << El("leftBranch", T("t", "OtherType"), 0, "1"), Ref("t", "GlobalThing", 1, "1"), El("rightBranch", T("o", "FarType"), 1, "1") >> }
+TopAttrs == {<<>>, << [k |-> "attr", n |-> "subjectAttr", ty |-> B("string"), use |-> "req"] >>}
 TopLevelCases == {[content |-> << ChoiceO(mn, mx, br) >>, attrs |-> at, order |-> o] :
-                    mn \in Mins, mx \in Maxs, br \in TopBranches, o \in {"before", "after"},
-                    at \in {<<>>, << [k |-> "attr", n |-> "subjectAttr", ty |-> B("string"), use |-> "req"] >>}}
+                    mn \in Mins, mx \in Maxs, br \in TopBranches, o \in {"before", "after"}, at \in TopAttrs}
+                 \cup {[content |-> << AllO(mn, ms) >>, attrs |-> at, order |-> o] :
+                    mn \in Mins, ms \in AllMembers, o \in {"before", "after"}, at \in TopAttrs}
 
 \* Slice "homonym": OtherType exists in the near AND in the imported namespace (different members); the focus type
 \* extends one of them and has a member typed by one of them; the near namespace is optionally the default namespace
